@@ -87,6 +87,8 @@ def c08_suites(tier, seed):
     prof = {"p_reads": 0.6, "p_delete": 0.15, "ops": 80, "txs": 4}
     s.append(("rand-reads", suite_random(seed, 60 if q else 1500, dict(prof, families=["deep", "short"]), "qr")))
     s.append(("prefix-queries", hists_of(jgen.gen_prefix_queries(seed, 30 if q else 100))))
+    # queries inside a transaction that has emptied whole leaves at the tail / head of the key space
+    s.append(("emptied-tail", hists_of(jgen.gen_emptied_leaves(40, seed + 9, 13 if q else 60))))
     # keys that are prefixes of one another, in trees whose leaves get merged
     s.append(("prefix-keys", suite_random(seed + 7, 40 if q else 1000, dict(prof, families=["prefix", "prefix", "deep"], p_delete=0.4, p_reads=0.4), "qp")))
     return s
